@@ -367,6 +367,17 @@ def case_driver(col, p):
                 except Exception as e:
                     col.violation('C02:driver%d:noncontiguous_density:raises' % d, dict(p, input=name), '%s: %s' % (type(e).__name__, e))
             if 'const' in outs:
+                # the same step written in absolute time (initial_t = t0, T = t0 + length): constant parameters do not know what time it is
+                try:
+                    outt = drv(phi0.copy(), xx, T + 0.37, initial_t=0.37, **variants['const'])
+                    col.tick(transitions=1)
+                    et = float(np.abs(np.asarray(outt) - outs['const']).max())
+                    # (T + t0) - t0 differs from T by a rounding error of t0, which moves the length of the last step by as much: 1e-10
+                    if not et <= 1e-10 * scale:
+                        col.violation('C02:driver%d:const:depends_on_initial_t' % d, dict(p, input=name), {'maxdiff': et, 'scale': float(scale)})
+                except Exception as e:
+                    col.violation('C02:driver%d:const:initial_t:raises' % d, dict(p, input=name), '%s: %s' % (type(e).__name__, e))
+            if 'const' in outs:
                 for vname, out in outs.items():
                     if vname == 'const':
                         continue
@@ -422,8 +433,9 @@ def case_driver_varying(col, p):
     f_h = [vary('h', hs0[k], k) for k in range(d)]
     f_m = {ij: vary('m', v, 2 * ij[0] + ij[1]) for ij, v in mig0.items()}
     f_th = vary('theta0', theta00, 0)
+    f_beta = vary('beta', float(p.get('beta', 1)), 1)
     if d == 1:
-        kw = dict(nu=f_nu[0], gamma=f_ga[0], h=f_h[0], theta0=f_th, beta=p.get('beta', 1))
+        kw = dict(nu=f_nu[0], gamma=f_ga[0], h=f_h[0], theta0=f_th, beta=f_beta if fam in ('beta', 'all') else p.get('beta', 1))
     else:
         kw = {'theta0': f_th}
         for k in range(d):
@@ -440,7 +452,7 @@ def case_driver_varying(col, p):
             nus, mig, gammas, hs, _ = at(t)
             this_dt = min(rule_dt(nus, mig, gammas, hs), T - t)
             nus, mig, gammas, hs, th = at(t + this_dt)
-            phi = _ref_step(phi, xx, d, this_dt, nus, mig, gammas, hs, th, delj, beta=p.get('beta', 1) if d == 1 else None)
+            phi = _ref_step(phi, xx, d, this_dt, nus, mig, gammas, hs, th, delj, beta=f_beta(t + this_dt) if d == 1 else None)
             t += this_dt
             n += 1
         return phi, n
@@ -644,8 +656,8 @@ def run(ctx):
     # parameters that change in time, one family at a time and all together
     for d, G in ((1, 6), (2, 4), (3, 3), (4, 3), (5, 3)):
         mig = [((a_, b_), 0.4 + 0.3 * a_ + 0.1 * b_) for a_ in range(d) for b_ in range(d) if a_ != b_]
-        for fam in ('nu', 'm', 'gamma', 'h', 'theta0', 'all'):
-            if d == 1 and fam == 'm':
+        for fam in ('nu', 'm', 'gamma', 'h', 'theta0', 'all', 'beta'):
+            if (d == 1 and fam == 'm') or (d > 1 and fam == 'beta'):
                 continue
             if ctx.quick and d >= 4 and fam not in ('m', 'all'):
                 continue
